@@ -317,7 +317,11 @@ class SafeConstructor(BaseConstructor):
             base = 1
             value = 0.0
             for digit in digits:
-                value += digit*base
+                if digit:
+                    try:
+                        value += digit*base
+                    except OverflowError:
+                        value = self.inf_value
                 base *= 60
             return sign*value
         else:
